@@ -342,6 +342,15 @@ theorem packLen_roundtrip (f : Frame) (n : Nat) (h : f.data < 256 ^ n) :
   · simp [Frame.packLen, Frame.packLenNat, PyVal.asInt?, h]
   · rw [ofBytesBE_toBytesBE, Nat.mod_eq_of_lt h]
 
+/-- **Text rendering never fails and shows exactly the width and the packed bytes** — `str(frame)` is
+`ClassName(width,[b0, b1, …])` with the most significant byte first, for every reachable frame. -/
+theorem render_spec (cls : String) (f : Frame) (hf : Frame.Inv f) :
+    ∃ bs, f.pack = .ok bs ∧ ofBytesBE bs = f.data ∧ bs.length = (f.bits + 7) / 8 ∧
+      Frame.render cls f = .ok s!"{cls}({f.bits},{Frame.pyList bs})" := by
+  obtain ⟨bs, h1, h2, _, h4⟩ := pack_spec f hf
+  refine ⟨bs, h1, h4, h2, ?_⟩
+  simp [Frame.render, Frame.asByteSequence, h1, bind, Except.bind, pure, Except.pure]
+
 /-- Rebuilding a frame from its packed bytes gives an equal frame. -/
 theorem pack_reconstructs (f : Frame) (hf : Frame.Inv f) :
     ∃ bs, f.pack = .ok bs ∧
